@@ -1,4 +1,4 @@
-use proc_macro2::{Span, TokenStream, TokenTree};
+use proc_macro2::{Delimiter, Span, TokenStream, TokenTree};
 use quote::quote;
 use std::borrow::Cow;
 use syn::spanned::Spanned;
@@ -408,12 +408,24 @@ impl Parser {
         };
 
         let body = match tokens.next() {
-            Some(TokenTree::Group(group)) => group.stream(),
             Some(first) => {
-                let mut body = TokenStream::from(first);
+                let rest = tokens.collect::<TokenStream>();
 
-                body.extend(tokens);
-                body
+                match first {
+                    // `|lex| { ... }`: the block is the whole body
+                    TokenTree::Group(group)
+                        if group.delimiter() == Delimiter::Brace && rest.is_empty() =>
+                    {
+                        group.stream()
+                    }
+                    // Any other expression, which may well begin with a group: `(a + b) * c`, `(a, b)`, `[a, b]`
+                    first => {
+                        let mut body = TokenStream::from(first);
+
+                        body.extend(rest);
+                        body
+                    }
+                }
             }
             None => {
                 self.err("Callback missing a body", span);
